@@ -49,7 +49,7 @@ def roots(tier):
     for name in materials(tier):
         _, kind = catalog.conventional(name)
         for m in facets(kind):
-            for layers in (3,) if tier == "quick" else (3, 4, 5):
+            for layers in (3,) if tier == "quick" else (3, 5):
                 out.append(("slab", name, m, layers))
     for name in catalog.monolayers():
         for rep in (3, 5) if tier == "quick" else (3, 4, 5, 6):
@@ -191,21 +191,21 @@ def run_shard(shard, tier, seed):
             continue
         seen.add((tag, kind))
         case = {"root": _rj(r), "variant": tag, "tier": tier, "seed": seed}
-        res.violation("c18." + kind, {"root": str(_rj(r)), "variant": tag}, case, "%s, %s: %s" % (_rj(r), tag, d))
+        res.violation("c18." + kind, {"root": str(_rj(r)), "adsorbates": tag.split("/")[0], "presentation": tag.split("/")[1]}, case, "%s, %s: %s" % (_rj(r), tag, d))
     return res
 
 
 def replay(case):
     r = tuple(tuple(x) if isinstance(x, list) else x for x in case["root"])
     viol, _ = check_root(r, case.get("tier", "quick"), case.get("seed", 0), None, only=case["variant"])
-    return [{"signature": {"check": "c18." + kind, "root": str(case["root"]), "variant": tag}, "case": case, "reason": d} for tag, kind, d in viol]
+    return [{"signature": {"check": "c18." + kind, "root": str(case["root"]), "adsorbates": tag.split("/")[0], "presentation": tag.split("/")[1]}, "case": case, "reason": d} for tag, kind, d in viol]
 
 
 def describe(tier, seed):
     return {
         "rule": "catalogue slabs (fcc/diamond/sc and cubic compounds: (100),(110),(111); bcc: (100); hcp/wurtzite: (001); rutile: (001),(100),(110)) x %s surface-cell layers, lateral heights >= 9 A, fully periodic with 16 A vacuum, "
                 "x adsorbate sets = all subsets of {top, bridge, hollow} of size <= %d (H, or O where H is in the slab; placed along the normal at a 0.3 A gap) x {identity, generic rotation, translation + reversed order}; "
-                "monolayer supercells (graphene, h-BN, MoS2 2H/1T, WS2). states = classify executions" % ("3" if tier == "quick" else "3-5", 1 if tier == "quick" else 2),
+                "monolayer supercells (graphene, h-BN, MoS2 2H/1T, WS2). states = classify executions" % ("3" if tier == "quick" else "3 and 5", 1 if tier == "quick" else 2),
         "nontrivial_rule": "each (material, facet, layers) / monolayer root",
         "bounds": {"materials": materials(tier), "roots": len(roots(tier))},
         "assumptions": ["bonding precondition evaluated independently with the classifier's thresholds (bond 0.75, overlap -0.6, margin 0.1)", "recognition claim: coverage = the enumerated catalogue"],
